@@ -20,6 +20,8 @@ import Driver.Cols
 import Driver.Partitions
 import Driver.Layers
 import Driver.Drivers
+import Driver.Boundary
+import Driver.Knobs
 open Dx Dx.Proto
 
 namespace Dx.Drv
@@ -55,6 +57,8 @@ def handlers : List (List String → Option String) :=
   , Dx.Drv.Partitions.handle
   , Dx.Drv.Layers.handle
   , Dx.Drv.Drivers.handle
+  , Dx.Drv.Boundary.handle
+  , Dx.Drv.Knobs.handle
   ]
 
 def handle (line : String) : String :=
